@@ -1,6 +1,7 @@
 package sim
 
 import (
+	kerrors "k8s.io/apimachinery/pkg/api/errors"
 	"k8s.io/apimachinery/pkg/runtime"
 	k8sfake "k8s.io/client-go/kubernetes/fake"
 	clienttesting "k8s.io/client-go/testing"
@@ -41,6 +42,8 @@ func (a *API) react(action clienttesting.Action) (bool, runtime.Object, error) {
 			accessor(obj).SetNamespace(ns)
 			if _, err = a.createLocked("ctrl", resource, obj); err == nil {
 				err = faultError(fault, resource, name)
+			} else {
+				a.calls[idx].Outcome = "err:" + string(kerrors.ReasonForError(err))
 			}
 		default:
 			err = faultError(fault, resource, name)
@@ -64,6 +67,8 @@ func (a *API) react(action clienttesting.Action) (bool, runtime.Object, error) {
 		case FaultTimeout:
 			if _, err = a.updateLocked("ctrl", resource, sub, obj); err == nil {
 				err = faultError(fault, resource, name)
+			} else {
+				a.calls[idx].Outcome = "err:" + string(kerrors.ReasonForError(err))
 			}
 		default:
 			err = faultError(fault, resource, name)
@@ -88,6 +93,8 @@ func (a *API) react(action clienttesting.Action) (bool, runtime.Object, error) {
 		case FaultTimeout:
 			if err = a.deleteLocked("ctrl", resource, Key(ns, name), grace); err == nil {
 				err = faultError(fault, resource, name)
+			} else {
+				a.calls[idx].Outcome = "err:" + string(kerrors.ReasonForError(err))
 			}
 		default:
 			err = faultError(fault, resource, name)
